@@ -128,6 +128,9 @@ func (p *propC03) Gen(idx int) *Scenario {
 				withType = false
 			}
 			d := &DefOp{Local: byte(r.Intn(16)), Arch: g.arch(), Global: 0, Fields: [][3]int{{2, 2, 0x84}}}
+			if r.Bool() {
+				d.Local = byte(r.Intn(4)) // may travel under a compressed-timestamp header
+			}
 			if withType {
 				d.Fields = [][3]int{{0, 1, 0}, {2, 2, 0x84}}
 			}
@@ -138,7 +141,11 @@ func (p *propC03) Gen(idx int) *Scenario {
 			}
 			sb := make([]byte, 2)
 			putN(sb, d.be(), uint64(seq))
-			g.emitData(d.Local, false, 0, append(pl, sb...))
+			if d.Local < 4 && r.Bool() {
+				g.emitData(d.Local, true, byte(r.Intn(32)), append(pl, sb...))
+			} else {
+				g.emitData(d.Local, false, 0, append(pl, sb...))
+			}
 			continue
 		}
 		pf := seqField(gl)
